@@ -16,6 +16,7 @@ CANARIES = {
            "VerifC15Canary"],
     "lib": ["VerifC17Canary", "VerifC18Canary"],
     "cli_v2": ["VerifC14Canary"],
+    "cli_root": ["VerifC14Canary"],
 }
 
 FIN = "(not (= ((_ extract 62 52) {v}) #b11111111111))"
